@@ -14,7 +14,7 @@ import (
 // C08 — a stalled subscriber cannot stall the collector or other subscribers.
 
 type cfg08 struct {
-	stall       string // never, transient, permanent
+	stall       string // never, transient, permanent, slow (every send takes 25 s of virtual time)
 	updatesOnly bool
 	script      []wop
 	stats       bool
@@ -40,7 +40,7 @@ func configs08(tier string) []xplore.Config {
 		many = append(many, wop{"upd", fmt.Sprintf("a/l%d", i)})
 	}
 	out = append(out, xplore.Config{Name: "A stall=permanent updates_only=true | B normal | W=1500 distinct leaves", Bound: 0, Data: cfg08{"permanent", true, many, false}})
-	for _, st := range []string{"never", "transient", "permanent"} {
+	for _, st := range []string{"never", "transient", "permanent", "slow"} {
 		for _, uo := range []bool{true, false} {
 			for si, sc := range scripts {
 				b := bound
@@ -61,7 +61,7 @@ func run08(cfg xplore.Config, ch vrt.Chooser, trace bool) (xplore.Outcome, *vrt.
 	if len(d.script) > 100 {
 		maxSteps = 2000000
 	}
-	res := vrt.Run(ch, vrt.Options{Reverse: cfg.Reverse, Trace: trace && maxSteps == 0, EarlyTimers: true, MaxSteps: maxSteps}, func() {
+	res := vrt.Run(ch, vrt.Options{Reverse: cfg.Reverse, Trace: trace && maxSteps == 0, EarlyTimers: d.stall != "slow", MaxSteps: maxSteps}, func() {
 		var opts []subscribe.Option
 		if d.stats {
 			opts = append(opts, subscribe.WithStats())
@@ -130,9 +130,12 @@ func run08(cfg xplore.Config, ch vrt.Chooser, trace bool) (xplore.Outcome, *vrt.
 			}
 		}
 		switch d.stall {
-		case "never":
+		case "never", "slow":
+			// slow: durations are modelled exactly (no early expiry): a subscriber
+			// whose every send completes within the time-out is never terminated,
+			// however long its backlog takes to drain
 			if a.returned {
-				viol(&out, "stream-ended", "A (never stalled) ended with %v", a.status)
+				viol(&out, "stream-ended", "A (%s) ended with %v", d.stall, a.status)
 			} else {
 				checkStream04(&out, w, cfg04{writers: []writer{{"t1", d.script}}}, 0, a)
 				checkDups(&out, d.updatesOnly, a, updCount)
